@@ -15,6 +15,7 @@ mkdir -p "$BASE" "$VERIF/evidence" "$VERIF/replays"
 SCR="$(mktemp -d "$BASE/verif.XXXXXX")" || exit 2
 trap 'rm -rf "$SCR"' EXIT
 
+TENSOR_FILES="ap.go,dense.go,dense_matop.go,dense_linalg.go,defaultengine_linalg.go,api_matop.go"
 usage() { echo "usage: $0 <C02|C06|C12|C17|C18> quick|thorough | --replay <file> | setup" >&2; exit 2; }
 [ $# -ge 1 ] || usage
 
@@ -27,10 +28,16 @@ build() {
   if [ "$instr" = 1 ]; then
     cp -a "$SCR/repo" "$SCR/repo-plain"
     (cd "$VERIF/instrument" && go build -trimpath -o "$SCR/instrument" .) || { echo "HARNESS-TROUBLE: instrumenter does not build" >&2; exit 2; }
-    "$SCR/instrument" "$SCR/repo" > "$SCR/instrument.log" 2>&1 || { cat "$SCR/instrument.log" >&2; echo "HARNESS-TROUBLE: instrumentation failed" >&2; exit 2; }
+    # a writable copy of gorgonia's tensor module, wired in by a replace directive: the files that manipulate
+    # tensor headers (shape, strides, transposition, views) and the linear-algebra front end get yield points too
+    TDIR="$(cd "$SCR/repo" && go list -m -f '{{.Dir}}' gorgonia.org/tensor)" || { echo "HARNESS-TROUBLE: cannot locate gorgonia.org/tensor" >&2; exit 2; }
+    cp -r "$TDIR" "$SCR/tensor" && chmod -R u+w "$SCR/tensor"
+    printf '\nreplace gorgonia.org/tensor => %s\n' "$SCR/tensor" >> "$SCR/repo/go.mod"
+    "$SCR/instrument" "$SCR/repo" gorgonia.org/tensor "$TENSOR_FILES" > "$SCR/instrument.log" 2>&1 || { cat "$SCR/instrument.log" >&2; echo "HARNESS-TROUBLE: instrumentation failed" >&2; exit 2; }
     tail -n 1 "$SCR/instrument.log"
   fi
   sed "s|=> /repo|=> $SCR/repo|" "$VERIF/sim/go.mod" > "$SCR/go.mod"
+  [ "$instr" = 1 ] && printf '\nreplace gorgonia.org/tensor => %s\n' "$SCR/tensor" >> "$SCR/go.mod"
   cp "$SCR/repo/go.sum" "$SCR/go.sum"
   (cd "$VERIF/sim" && go build -trimpath -modfile="$SCR/go.mod" -tags verif -o "$SCR/simcheck" ./cmd/simcheck) \
     || { echo "HARNESS-TROUBLE: build against $REPO failed (property not decided)" >&2; exit 2; }
